@@ -331,6 +331,15 @@ Fixpoint leaves (h : nat) (t : tree) : list leaf :=
   end.
 Definition abs (h : nat) (t : tree) : list entry := flat_map lcells (leaves h t).
 
+(* bounds of child number i of an interior node whose own key range is (lo, hi) *)
+Definition lo_at (lo : option key) (kids : list kid) (i : nat) : option key :=
+  match i with
+  | O => lo
+  | S j => match nth_error kids j with Some sc => Some (fst sc) | None => lo end
+  end.
+Definition hi_at (hi : option key) (kids : list kid) (i : nat) : option key :=
+  match nth_error kids i with Some sc => Some (fst sc) | None => hi end.
+
 (* the separator immediately left of the routed leaf on the descent path (its lower bound) *)
 Fixpoint lower_sep (h : nat) (t : tree) (lo : option key) (k : key) : option key :=
   match t with
@@ -338,10 +347,7 @@ Fixpoint lower_sep (h : nat) (t : tree) (lo : option key) (k : key) : option key
   | Node _ kids r =>
       match h with
       | O => lo
-      | S h' =>
-          let i := cidx k kids in
-          let lo' := match i with O => lo | S j => match nth_error kids j with Some sc => Some (fst sc) | None => lo end end in
-          lower_sep h' (child_at kids r i) lo' k
+      | S h' => let i := cidx k kids in lower_sep h' (child_at kids r i) (lo_at lo kids i) k
       end
   end.
 
